@@ -65,7 +65,9 @@ func main() {
 			fmt.Fprintf(os.Stderr, "Unexpected error: %v\n", err)
 			os.Exit(1)
 		}
-		if fi.Size() == 0 {
+		// a pipe or redirected file reports a size of 0 or its real size depending on the
+		// platform, so only refuse to read when stdin is an interactive terminal
+		if fi.Mode()&os.ModeCharDevice != 0 {
 			fmt.Fprintln(os.Stderr, "No data provided on stdin.  Use '-file' or pass data on stdin.")
 			os.Exit(1)
 		}
